@@ -129,9 +129,14 @@ func (n *rtNode) spiMode() int { // 0 fast, 1 slow, 2 wait for the context
 }
 
 func (n *rtNode) spiCall(kind string, ctx context.Context, h uint64) (released bool) {
+	return n.spiCallS(kind, ctx, h, "")
+}
+
+// spiCallS: s = what the call says about the view its context belongs to (validate: the proposal's leader)
+func (n *rtNode) spiCallS(kind string, ctx context.Context, h uint64, s string) (released bool) {
 	mode := n.spiMode()
 	v := uint64(n.lh.State().View())
-	n.c.log.add(n.id, "SPI+"+kind, h, v, uint64(mode), ctx.Err() != nil, "")
+	n.c.log.add(n.id, "SPI+"+kind, h, v, uint64(mode), ctx.Err() != nil, s)
 	t0 := time.Now()
 	switch mode {
 	case 1:
@@ -159,7 +164,7 @@ func (b *rtBlockUtils) RequestNewBlockProposal(ctx context.Context, h primitives
 	return blk, blockHash(blk)
 }
 func (b *rtBlockUtils) ValidateBlockProposal(ctx context.Context, h primitives.BlockHeight, leader primitives.MemberId, block interfaces.Block, hash primitives.BlockHash, prev interfaces.Block) error {
-	b.n.spiCall("validate", ctx, uint64(h))
+	b.n.spiCallS("validate", ctx, uint64(h), fmt.Sprintf("leader=%d", memberTok(leader)))
 	vb, ok := block.(*vblock)
 	if !ok || vb == nil || !bytes.Equal(blockHash(vb), hash) {
 		return fmt.Errorf("bad block")
@@ -776,6 +781,13 @@ func (c *rtCluster) monitors() {
 				if e.A == 2 {
 					openSpi = &open{e.Kind, e.Ms, curV, 0}
 					rep.count("runtime:blocking-spi")
+					var ld uint64
+					if k, _ := fmt.Sscanf(e.S, "leader=%d", &ld); k == 1 && (ld+4-e.H%4)%4 != curV%4 {
+						// the block of a NEW_VIEW for a later view is validated under that view's context before the node
+						// moves there; the election of the view it is still in is not required to cancel it
+						openSpi.v = ^uint64(0)
+						rep.count("runtime:blocking-validate-for-the-view-of-a-new-view")
+					}
 				}
 			case "SPI-propose", "SPI-validate", "SPI-commit":
 				if openSpi != nil && e.B && openSpi.trigAt != 0 {
